@@ -14,6 +14,10 @@ for f in sorted(glob.glob('/verif/seeded/*/meta.json'), key=lambda p: (p.split('
             res.append(f"{p} thorough")
         else:
             res.append(f"{p} –")
+    if m.get('neutralised'):
+        res.append("(harmless on HEAD since a later fix: commit — its own demonstration passes)")
+    if m.get('stale'):
+        res.append("(patch conflicts with a later fix: commit; result taken at its base)")
     rows.append(f"| {sid} | {summ} | {', '.join(res)} |")
 print("| seed | change (abridged) | caught by |\n|---|---|---|")
 print("\n".join(rows))
